@@ -851,13 +851,54 @@ func (s *State) Apply(args []string) resp.Value {
 		if !atLeast(3) {
 			return errArgs
 		}
-		withScores := false
-		for _, o := range a[3:] {
-			if strings.ToUpper(o) == "WITHSCORES" {
+		withScores, rev, byScore, limit := false, cmd == "ZREVRANGE", false, false
+		off, cnt := int64(0), int64(-1)
+		for i := 3; i < len(a); i++ {
+			o := strings.ToUpper(a[i])
+			switch {
+			case o == "WITHSCORES":
 				withScores = true
-			} else {
+			case o == "REV" && cmd == "ZRANGE":
+				rev = true
+			case o == "BYSCORE" && cmd == "ZRANGE":
+				byScore = true
+			case o == "LIMIT" && cmd == "ZRANGE":
+				if i+2 >= len(a) {
+					return errSyntax
+				}
+				o1, ok3 := ParseInt(a[i+1])
+				c1, ok4 := ParseInt(a[i+2])
+				if !ok3 || !ok4 {
+					return errNotInt
+				}
+				off, cnt, limit = o1, c1, true
+				i += 2
+			default:
 				return errSyntax
 			}
+		}
+		if limit && !byScore {
+			return resp.E("ERR syntax error, LIMIT is only supported in combination with either BYSCORE or BYLEX")
+		}
+		if byScore {
+			// ZRANGE key start stop BYSCORE [REV]: with REV start is the maximum
+			lo, hi := a[1], a[2]
+			if rev {
+				lo, hi = a[2], a[1]
+			}
+			min, minEx, ok1 := parseBound(lo)
+			max, maxEx, ok2 := parseBound(hi)
+			if !ok1 || !ok2 {
+				return resp.E("ERR min or max is not a float")
+			}
+			e, ex, wt := s.get(a[0], "zset")
+			if wt {
+				return errWrongType
+			}
+			if !ex {
+				return resp.A()
+			}
+			return zreply(e, zselectByScore(e, min, minEx, max, maxEx, rev, off, cnt), withScores)
 		}
 		st, ok1 := ParseInt(a[1])
 		sp, ok2 := ParseInt(a[2])
@@ -872,7 +913,7 @@ func (s *State) Apply(args []string) resp.Value {
 			return resp.A()
 		}
 		ms := e.zsorted()
-		if cmd == "ZREVRANGE" {
+		if rev {
 			for i, j := 0, len(ms)-1; i < j; i, j = i+1, j-1 {
 				ms[i], ms[j] = ms[j], ms[i]
 			}
@@ -923,27 +964,7 @@ func (s *State) Apply(args []string) resp.Value {
 		if !ex {
 			return resp.A()
 		}
-		var sel []string
-		for _, m := range e.zsorted() {
-			sc := e.ZSet[m]
-			if sc < min || (minEx && sc == min) || sc > max || (maxEx && sc == max) {
-				continue
-			}
-			sel = append(sel, m)
-		}
-		if cmd == "ZREVRANGEBYSCORE" {
-			for i, j := 0, len(sel)-1; i < j; i, j = i+1, j-1 {
-				sel[i], sel[j] = sel[j], sel[i]
-			}
-		}
-		if off < 0 || off >= int64(len(sel)) {
-			sel = nil
-		} else {
-			sel = sel[off:]
-			if cnt >= 0 && cnt < int64(len(sel)) {
-				sel = sel[:cnt]
-			}
-		}
+		sel := zselectByScore(e, min, minEx, max, maxEx, cmd == "ZREVRANGEBYSCORE", off, cnt)
 		return zreply(e, sel, withScores)
 
 	// ---------------- generic ----------------
@@ -1013,6 +1034,32 @@ func (s *State) Apply(args []string) resp.Value {
 		return bulkList(ks)
 	}
 	return resp.E("ERR unknown command '" + args[0] + "'")
+}
+
+// zselectByScore returns the members with min <= score <= max (bounds
+// exclusive as flagged), ascending or descending, after LIMIT off cnt.
+func zselectByScore(e *Entry, min float64, minEx bool, max float64, maxEx bool, rev bool, off, cnt int64) []string {
+	var sel []string
+	for _, m := range e.zsorted() {
+		sc := e.ZSet[m]
+		if sc < min || (minEx && sc == min) || sc > max || (maxEx && sc == max) {
+			continue
+		}
+		sel = append(sel, m)
+	}
+	if rev {
+		for i, j := 0, len(sel)-1; i < j; i, j = i+1, j-1 {
+			sel[i], sel[j] = sel[j], sel[i]
+		}
+	}
+	if off < 0 || off >= int64(len(sel)) {
+		return nil
+	}
+	sel = sel[off:]
+	if cnt >= 0 && cnt < int64(len(sel)) {
+		sel = sel[:cnt]
+	}
+	return sel
 }
 
 func zreply(e *Entry, ms []string, withScores bool) resp.Value {
